@@ -263,6 +263,16 @@ def timeline_corpus(tier, seed):
     add(dur("1s"), k_from, kf(T, "100%", [("x", "8.5")]), k_to)
     add(dur("1s"), k_to, k_50, k_from)
     add(dur("1s"), k_50, k_25f, k_to)
+    # field values are arbitrary caller expressions: variables whose names the expansion might use for its own bindings must
+    # keep meaning the caller's variables (macro hygiene)
+    HYG = "time: f32, duration: f32, delay: f32, position: f32, value: f32, t: f32, x: f32, keyframe: f32, timeline: f32, " \
+          "builder: f32, name: u8, count: u8, values: f32, normalized_time: f32, default_values: f32"
+    S.append({"kind": "single", "params": HYG, "items": [sentence(T, [
+        dur("2s"), kf(T, "from", [("x", "time"), ("y", "duration")]), kf(T, "50%", [("x", "position"), ("n", "count")]),
+        kf(T, "to", [("x", "value + t"), ("y", "x"), ("n", "name")])])]})
+    S.append({"kind": "merged", "params": HYG, "items": [
+        sentence(T, [dur("1s"), kf(T, "from", [("x", "keyframe"), ("y", "timeline")]), kf(T, "to", [("x", "builder"), ("y", "delay")])]),
+        sentence(T, [dur("3s"), delay("after 1s"), kf(T, "25%", [("x", "values")]), kf(T, "to", [("x", "normalized_time"), ("y", "default_values")])])]})
     # positions below 1 % and above 99 %, counts that f32 cannot hold
     add(dur("1s"), kf(T, "0.5%", [("x", "3.5")]), kf(T, "0.25%", [("y", "1.5")]), kf(T, "99.75%", [("x", "4.5")]), k_to)
     add(dur("1s"), rep("16_777_217x"), k_to)
@@ -358,8 +368,8 @@ def timeline_source(corpus):
                 ref = "MergedTimeline::of([%s])" % ", ".join("%s.build()" % it["ref"] for it in items)
             else:
                 ref = "%s.build()" % items[0]["ref"]
-        out.append("pub fn %s_macro() -> %s {\n    %s\n}" % (name, ty, mac))
-        out.append("pub fn %s_ref() -> %s {\n    %s\n}" % (name, ty, ref))
+        out.append("pub fn %s_macro(%s) -> %s {\n    %s\n}" % (name, s.get("params", ""), ty, mac))
+        out.append("pub fn %s_ref(%s) -> %s {\n    %s\n}" % (name, s.get("params", ""), ty, ref))
         meta.append({"name": name, "kind": s["kind"], "macro": mac, "ref": ref,
                      "prods": sorted({p for it in items for p in it["prods"]} | ({"merge-list"} if s["kind"] != "single" else set()))})
     return "\n\n".join(out) + "\n", meta
@@ -452,6 +462,13 @@ def animator_corpus(tier, seed):
     C.append({"defaults": {"state": "St::A", "values": ("inline", [("x", "1.5")])},
               "arms": [arm(["St::A"], [tl(dur("1s"), k_to)]), arm(["St::B"], [tl(dur("2s"))]),
                        arm(["St::C", "St::D"], [tl(dur("for 3s"), rep("2x")), tl(dur("1s"), delay("after 500ms"))])]})
+    # caller variables in field values and inline defaults keep their meaning (macro hygiene)
+    C.append({"params": "time: f32, duration: f32, position: f32, value: f32, state: f32, timeline: f32, animator: f32, "
+                        "builder: f32, values: f32, count: u8",
+              "defaults": {"state": "St::A", "values": ("inline", [("x", "value"), ("n", "count")])},
+              "arms": [arm(["St::A"], [tl(dur("1s"), kf(T, "from", [("x", "time")]), kf(T, "to", [("x", "duration"), ("y", "state")]))]),
+                       arm(["St::B", "St::C"], [tl(dur("2s"), kf(T, "to", [("x", "timeline"), ("y", "animator")])),
+                                                tl(dur("500ms"), kf(T, "50%", [("y", "builder")]), kf(T, "to", [("y", "values + position")]))])]})
     # keyframes sharing a position inside an arm keep their order (a step)
     C.append({"defaults": {"state": "St::A", "values": ("inline", [("x", "1.5")])},
               "arms": [arm(["St::A"], [tl(dur("2s"), k_from, kf(T, "50%", [("x", "3.5")]), kf(T, "50%", [("x", "7.5"), ("n", "40")]), k_to)]),
@@ -545,8 +562,8 @@ def animator_source(corpus):
                 ref.append("    .on(%s, %s)" % (s, ref_t))
         ref.append("    .build()")
         mac = "animator!(Tl { %s%s })" % (", ".join(parts), "," if (d is not None and not c["arms"]) else "")
-        out.append("pub fn %s_macro() -> Anim {\n    %s\n}" % (name, mac))
-        out.append("pub fn %s_ref() -> Anim {\n    %s\n}" % (name, "\n    ".join(ref)))
+        out.append("pub fn %s_macro(%s) -> Anim {\n    %s\n}" % (name, c.get("params", ""), mac))
+        out.append("pub fn %s_ref(%s) -> Anim {\n    %s\n}" % (name, c.get("params", ""), "\n    ".join(ref)))
         meta.append({"name": name, "macro": mac, "ref": " ".join(x.strip() for x in ref), "prods": sorted(prods)})
     return "\n\n".join(out) + "\n", meta
 
